@@ -69,6 +69,10 @@ func FSSparseFile(path string, size int64) {
 	}
 }
 
+// FSSparseFileSym is FSSparseFile for a length that is an input (the engine keeps
+// it symbolic: only the size of such a file can be asked for).
+func FSSparseFileSym(path string, size int64) { FSSparseFile(path, size) }
+
 // FSSparsePatch writes data at an offset of a sparse file (the rest stays a hole).
 func FSSparsePatch(path string, off int64, data []byte) {
 	f, err := os.OpenFile(path, os.O_WRONLY, 0)
